@@ -187,6 +187,11 @@ func (e *Exec) utf8Valid(bs []Int) bool {
 	return e.decide(valid[0])
 }
 
+type matchEntry struct {
+	subject value
+	result  value
+}
+
 // exportPoint gives the harness a turn at every constructor call of an
 // export (a point at which concurrent line processing may arrive).
 func (e *Exec) exportPoint() {
@@ -284,6 +289,16 @@ func init() {
 	// regexp: match outcomes come from the harness table (vSetMatch)
 	stubs["(*regexp.Regexp).FindStringSubmatch"] = func(e *Exec, fn *ssa.Function, args []value) value {
 		re := args[0].(*value)
+		// outcomes given per subject string (vSetMatchOn) come first: a
+		// regexp applied to different strings may match one and not the other
+		for _, en := range e.matchOn[re] {
+			if e.decide(bytesEq(strBytes(en.subject), strBytes(args[1]))) {
+				if en.result == nil {
+					return []value(nil)
+				}
+				return en.result
+			}
+		}
 		if r, ok := e.matchTable[re]; ok {
 			if r == nil {
 				return []value(nil)
